@@ -928,9 +928,13 @@ fn body(run: &Run, replay: Option<&Value>) {
             }
             return;
         }
-        if case["source"].as_str() == Some("name_family") {
+        if matches!(case["source"].as_str(), Some("name_family") | Some("text_family")) {
             let mut l = Local::default();
-            names::replay(&ctx, &reg, case, &mut l);
+            if case["source"].as_str() == Some("name_family") {
+                names::replay(&ctx, &reg, case, &mut l);
+            } else {
+                names::replay_text(&ctx, &reg, case, &mut l);
+            }
             for (k, v) in &l.counters {
                 println!("  {k} = {v}");
             }
@@ -1167,6 +1171,7 @@ fn body(run: &Run, replay: Option<&Value>) {
     if want("names") {
         let mut l = Local::default();
         names::run_family(&ctx, &reg, &mut l);
+        names::run_text_families(&ctx, &reg, &mut l);
         total.lock().unwrap().merge(l);
     }
 
